@@ -73,6 +73,14 @@ impl<'a> Model<'a> {
         } else {
             2
         };
+        // Excel accepts at most 127 decimals (a huge count would also exhaust memory)
+        if decimals.unsigned_abs() > 127 {
+            return CalcResult::new_error(
+                Error::VALUE,
+                cell,
+                "Invalid number of decimals".to_string(),
+            );
+        }
         let formatted = format_abs(value.abs(), decimals, true);
         let result = if value < 0.0 {
             format!("(${})", formatted)
@@ -108,6 +116,14 @@ impl<'a> Model<'a> {
             false
         };
         let use_thousands = !no_commas;
+        // Excel accepts at most 127 decimals (a huge count would also exhaust memory)
+        if decimals.unsigned_abs() > 127 {
+            return CalcResult::new_error(
+                Error::VALUE,
+                cell,
+                "Invalid number of decimals".to_string(),
+            );
+        }
         let formatted = format_abs(value.abs(), decimals, use_thousands);
         let result = if value < 0.0 {
             format!("-{}", formatted)
